@@ -423,9 +423,27 @@ def _analyse(case, history, final):
                 for k in init:
                     if stable(k, rs, re) and k not in got:
                         return 'read-missing', 'client %d: %s() misses key %r that was stored throughout' % (c, kind, k)
-                if f == 'file' and kind in ('items', 'load'):
-                    # must be one complete dictionary that existed
-                    pass
+                if f == 'file' and kind in ('items', 'load', 'keys'):
+                    # single-file archive: the reader must see ONE complete dictionary that existed,
+                    # i.e. the prior contents with some prefix of the (single) writer's operations applied
+                    wops = sorted((o2['start'], o2['op'], o2['res']) for o2 in ops.values()
+                                  if o2['op']['op'] in ('set', 'del', 'pop'))
+                    if all(r is not None and r[0] == 'ok' for (_, _, r) in wops):
+                        states = [dict(init)]
+                        for (_, wop, _) in wops:
+                            s = dict(states[-1])
+                            if wop['op'] == 'set':
+                                s[wop['k']] = wop['v']
+                            else:
+                                s.pop(wop['k'], None)
+                            states.append(s)
+                        if kind == 'keys':
+                            okay = any(set(got) == set(s) for s in states)
+                        else:
+                            okay = any(got == s for s in states)
+                        if not okay:
+                            return 'torn-snapshot', 'client %d: %s() returned %r, which is none of the %d complete ' \
+                                'dictionaries the file ever held: %r' % (c, kind, got, len(states), states)
         else:
             # writers / deleters must not fail either (they touch only their own keys)
             if tag != 'ok':
